@@ -42,6 +42,10 @@ type Send struct {
 	Defs      []VarDef               `json:"defs,omitempty"`
 	Vars      map[string]interface{} `json:"vars,omitempty"`
 	Args      []LField               `json:"args"`
+	// Place: where the field stands in the document: "" = operation body, "fragment" = inside a named
+	// fragment spread from the operation, "inline" = inside an inline fragment.  Arguments (and the
+	// variables and defaults they use) must arrive the same from every place.
+	Place string `json:"place,omitempty"`
 }
 
 type Case struct {
@@ -193,15 +197,22 @@ func (s *Send) query() string {
 		}
 		b.WriteString("(" + strings.Join(xs, ", ") + ")")
 	}
-	b.WriteString(" { g(x: 1) f")
+	field := "f"
 	if len(s.Args) > 0 {
 		xs := []string{}
 		for _, a := range s.Args {
 			xs = append(xs, a.N+": "+a.V.text())
 		}
-		b.WriteString("(" + strings.Join(xs, ", ") + ")")
+		field += "(" + strings.Join(xs, ", ") + ")"
 	}
-	b.WriteString(" }")
+	switch s.Place {
+	case "fragment":
+		b.WriteString(" { g(x: 1) ...Fr }\nfragment Fr on Query { " + field + " }")
+	case "inline":
+		b.WriteString(" { g(x: 1) ... on Query { " + field + " } }")
+	default:
+		b.WriteString(" { g(x: 1) " + field + " }")
+	}
 	return b.String()
 }
 
@@ -680,7 +691,17 @@ func main() {
 			}
 		}
 		for i := 0; i < o.N; i++ {
-			cases = append(cases, genCase(r.Fork()))
+			cr := r.Fork()
+			c := genCase(cr)
+			for k := range c.Sends {
+				switch p := cr.Intn(10); {
+				case p < 2:
+					c.Sends[k].Place = "fragment"
+				case p < 3:
+					c.Sends[k].Place = "inline"
+				}
+			}
+			cases = append(cases, c)
 		}
 	}
 
